@@ -801,3 +801,72 @@ func c07r6(rc *core.RC) {
 		rc.OK("decoder/pointer-arithmetic-sites", token.NoPos, "%d uintptr→unsafe.Pointer conversions examined: each takes its address from a pointer inside the same expression", n)
 	}
 }
+
+// ---- C07.R7 a map key decoder is the decoder of the key type itself ----
+
+// compileMapKey wraps scalar decoders so that they read a quoted key. The decoder it wraps stores
+// a value of its own kind through the key slot, so it has to be the decoder compiled for the key
+// type itself: a variable that is re-assigned (for example to the inner decoder of a ptrDecoder)
+// would store a scalar where the map holds a pointer.
+func c07r7(rc *core.RC) {
+	p := rc.P
+	fd := p.Func("decoder", "compileMapKey")
+	key := "decoder.compileMapKey/wrapped-decoder-is-for-key-type"
+	if fd == nil {
+		rc.Unknown(key, token.NoPos, "not found")
+		return
+	}
+	rc.Touch("decoder.compileMapKey")
+	info := p.Info(fd)
+	var typParam types.Object
+	for _, f := range fd.Type.Params.List {
+		for _, nm := range f.Names {
+			if o := info.Defs[nm]; o != nil && strings.HasSuffix(o.Type().String(), "runtime.Type") && typParam == nil {
+				typParam = o
+			}
+		}
+	}
+	n := 0
+	ast.Inspect(fd.Body, func(m ast.Node) bool {
+		call, ok := m.(*ast.CallExpr)
+		if !ok || core.CalleeName(info, call) != "decoder.newWrappedStringDecoder" || len(call.Args) < 2 {
+			return true
+		}
+		n++
+		d := core.ObjOf(info, call.Args[1])
+		if d == nil || core.ObjOf(info, call.Args[0]) != typParam {
+			rc.Unknown(key, call.Pos(), "arguments of newWrappedStringDecoder not recognised")
+			return true
+		}
+		// every definition of d is compile(typ, …)
+		defs, good := 0, true
+		ast.Inspect(fd.Body, func(k ast.Node) bool {
+			as, ok := k.(*ast.AssignStmt)
+			if !ok {
+				return true
+			}
+			for i, l := range as.Lhs {
+				if core.ObjOf(info, l) != d {
+					continue
+				}
+				defs++
+				var r ast.Expr
+				if len(as.Rhs) == len(as.Lhs) {
+					r = as.Rhs[i]
+				} else if len(as.Rhs) == 1 {
+					r = as.Rhs[0]
+				}
+				c, ok := core.Unparen(r).(*ast.CallExpr)
+				if !ok || core.CalleeName(info, c) != "decoder.compile" || len(c.Args) == 0 || core.ObjOf(info, c.Args[0]) != typParam {
+					good = false
+				}
+			}
+			return true
+		})
+		rc.Check(defs > 0 && good, key, call.Pos(), "the decoder wrapped for key type %s is only ever the result of compile(%s, …) (%d definition(s)): it is never replaced by the decoder of a type the key points to", typParam.Name(), typParam.Name(), defs)
+		return true
+	})
+	if n == 0 {
+		rc.Unknown(key, fd.Pos(), "no newWrappedStringDecoder call found")
+	}
+}
